@@ -30,7 +30,12 @@ ASSUMPTIONS = [
 
 def _spaces(containers, thorough):
     apps = {'c1': ['a1'], 'c2': ['a1', 'a2'], 'c3': ['a2']}
-    return {c: nd.raw_space(apps[c], thorough) for c in containers}
+    sp = {c: nd.raw_space(apps[c], thorough) for c in containers}
+    if not thorough and 'c2' in sp:
+        # quick: c2 alternates between "another instance of c1's application" and "another application"
+        half = len(sp['c2']) // 2
+        sp['c2'] = [sp['c2'][k] if k % 2 else sp['c2'][half + k] for k in range(half)]
+    return sp
 
 
 def _mc(ctx):
@@ -55,8 +60,8 @@ def _mc(ctx):
 
 
 def _gen(ctx):
-    n_tlc = 150 if ctx.quick else 3000
-    n_rnd = 350 if ctx.quick else 8000
+    n_tlc = 150 if ctx.quick else 2000
+    n_rnd = 350 if ctx.quick else 6000
     out = []
     for k, containers in enumerate([['c1', 'c2'], ['c1', 'c2', 'c3']]):
         mod, cfg, files = nd.mc_files(containers, _spaces(containers, True), tag='_gen%d' % k,
